@@ -212,6 +212,11 @@ class RefState:
         return RefState(self.p, self.rho, self.ms, self.done)
 
 
+def ends_in_eof(r):
+    return r == ('eof',) or (r[0] == 'cat' and ends_in_eof(r[2])) or (r[0] == 'alt' and (ends_in_eof(r[1]) or ends_in_eof(r[2]))) \
+        or (r[0] in ('opt', 'var') and ends_in_eof(r[-1]))
+
+
 def ref_next(d, o, st):
     """one next() call of the reference lexer from boundary state st (mutated).
     -> (item, events, info) ; item: ('none',) | ('tok', gid, ms, e) | ('invalid', ms) | ('custom', ms)
